@@ -212,6 +212,9 @@ func c10Specs(tier string) []*h.SeqSpec {
 		blob("r/n", "l1")
 		man("r/n", "I1", "t")
 		blob("s", "c")
+		// a legal nested name whose directory is where r keeps the blob l2; the directory store has to refuse it (a name
+		// the stores do not both accept: its own content is not compared, that of r is)
+		blob("r/blobs/sha256/"+strings.TrimPrefix(f.Items["l2"].Dig, "sha256:"), "c")
 		for _, p := range []string{"/v2/r/manifests/t", "/v2/r/manifests/" + f.Items["I1"].Dig, "/v2/r/manifests/" + f.Items["X2"].Dig, "/v2/r/blobs/" + f.Items["l2"].Dig, "/v2/r/n/manifests/t"} {
 			p := p
 			ops = append(ops, h.Op{Name: "DELETE " + strings.Replace(p, "sha256:", "", 1)[:minInt(len(p), 40)], Do: func(w *h.World) []h.Violation { w.Delete(p); return nil }})
